@@ -85,6 +85,9 @@ def render(layout, cls, use_name=None):
             members = [c for c in LIBS[module] if c != cls][:1] or ['Bar']
             if not [c for c in LIBS[module] if c != cls]:
                 module, members = 'Lib.A', ['Bar']
+        elif module == '@wrong':    # `import { cls } from M` where M exists but has no cls
+            module = [m for m in sorted(LIBS) if cls not in LIBS[m]][0]
+            members = [cls]
         parts.append(import_text(members, module, imp['style']))
         parts.append(imp['semi'] or '')
         parts.append(imp['trailer'])
@@ -109,7 +112,7 @@ def body_with_helpers(rng, imports):
     b = rng.pick(BODIES)
     used = []
     for imp in imports:
-        if imp['module'] != '@same':
+        if imp['module'] not in ('@same', '@wrong'):
             used += imp['members']
     if used and rng.chance(2, 3):
         extra = 'class UsesImports {\n  function all(): int = %s\n}\n\n' % ' + '.join('%s.make()' % u for u in used)
@@ -124,6 +127,8 @@ def mk_import(members, module, style='spaced', semi=None, trailer='', sep='\n'):
 def random_import(rng, pool):
     if rng.chance(1, 5):
         members, module = ['X'], '@same'
+    elif rng.chance(1, 7):
+        members, module = ['X'], '@wrong'     # the candidate itself, imported from a module that does not export it
     else:
         c, m = rng.pick(pool)
         members, module = [c], m
@@ -137,13 +142,13 @@ def random_layout(rng):
     imports = []
     for _ in range(n):
         imp = random_import(rng, pool)
-        if imp['module'] != '@same':
+        if imp['module'] not in ('@same', '@wrong'):
             pool = [p for p in pool if p[0] != imp['members'][0]] or list(HELPERS)
         imports.append(imp)
     # no duplicate member names (a collision error would be unrelated noise)
     seen, uniq = set(), []
     for imp in imports:
-        key = tuple(imp['members']) if imp['module'] != '@same' else ('@same',)
+        key = tuple(imp['members']) if imp['module'] not in ('@same', '@wrong') else (imp['module'],)
         if key in seen:
             continue
         seen.add(key)
